@@ -840,10 +840,10 @@ pub fn def(tier: Tier) -> PropertyDef {
 				(Just(cfg), prop_oneof![3 => gen::candle_stream_n(p, max_len), 1 => gen::regime_candle_stream_n(p, max_len)])
 			})
 			.prop_map(|(cfg, s)| VCase { cfg, s });
-		checks.push(pt(&format!("values_{name}"), tier.pick(3000, 10000), strat, run));
+		checks.push(pt(&format!("values_{name}"), tier.pick(3000, 60000), strat, run));
 		// long one-sided trends with a zig-zag: run, peak and "bars since" counters far from their start
 		let strat = (cfggen::config_strategy(name, GenOpts { wide: false, price_sources: true, nonneg_ma: false }), gen::trend_candle_stream(tier.pick(1500, 5000))).prop_map(|(cfg, s)| VCase { cfg, s });
-		checks.push(pt(&format!("trend_values_{name}"), tier.pick(40, 200), strat, run));
+		checks.push(pt(&format!("trend_values_{name}"), tier.pick(40, 1200), strat, run));
 	}
 	checks.extend(crate::fuzz_entry::corpus_checks("C05"));
 	PropertyDef {
